@@ -224,6 +224,7 @@ package pool
 //@   requires m != nil
 //@   modifies m.Options, m.Options[len(m.Options) : cap(m.Options)], m.Payload, m.Code, m.Token, m.Type, m.MessageID
 //@   ensures [too-small-full] errors.Is(err, message.ErrOptionsTooSmall) ==> len(m.Options) == cap(m.Options) && cap(m.Options) == cap(old(m.Options)) && cap(m.Options) < optsNeeded(buf)
+//@   ensures [n] err == nil ==> n == len(buf)
 //@   ensures [needed-bounded] 0 <= optsNeeded(buf) && optsNeeded(buf) <= len(buf)
 //@   ensures [same-array] m.Options[0:0] == old(m.Options)[0:0] && cap(m.Options) == cap(old(m.Options)) && len(m.Options) >= len(old(m.Options))
 //@   ensures [points-into-data] err == nil ==> within(m.Token, buf) && within(m.Payload, buf) && (forall i int :: {len(m.Options[i].Value)} len(old(m.Options)) <= i && i < len(m.Options) ==> within(m.Options[i].Value, buf))
@@ -233,6 +234,7 @@ package pool
 //@   modifies r.msg.Options, r.msg.Options[0 : cap(r.msg.Options)], r.msg.Payload, r.msg.Code, r.msg.Token, r.msg.Type, r.msg.MessageID
 //@   ensures [own-copy] err == nil ==> within(r.msg.Token, r.bufferUnmarshal) && within(r.msg.Payload, r.bufferUnmarshal) && (forall i int :: {len(r.msg.Options[i].Value)} 0 <= i && i < len(r.msg.Options) ==> within(r.msg.Options[i].Value, r.bufferUnmarshal))
 //@   ensures [buffer-kept] r.bufferUnmarshal == old(r.bufferUnmarshal)
+//@   ensures [consumed] err == nil ==> n == len(r.bufferUnmarshal)
 //@   loop 0:
 //@     modifies r.msg.Options, r.msg.Options[0 : cap(r.msg.Options)], r.msg.Payload, r.msg.Code, r.msg.Token, r.msg.Type, r.msg.MessageID
 //@     invariant [buffer-kept] r.bufferUnmarshal == old(r.bufferUnmarshal)
@@ -247,6 +249,7 @@ package pool
 //@   ensures [owns-its-bytes] err == nil ==> within(r.msg.Token, r.bufferUnmarshal) && within(r.msg.Payload, r.bufferUnmarshal) && (forall i int :: {len(r.msg.Options[i].Value)} 0 <= i && i < len(r.msg.Options) ==> within(r.msg.Options[i].Value, r.bufferUnmarshal))
 //@   ensures [not-the-callers] len(data) > 0 ==> r.bufferUnmarshal.obj != data.obj
 //@   ensures [copy-is-exact] len(r.bufferUnmarshal) == len(data) && bytesEq(r.bufferUnmarshal, data)
+//@   ensures [consumed] err == nil ==> n == len(data)
 //
 // Assumed contracts of the pool (a message handed out is held by nobody else - the ownership discipline
 // of C12 - so for the receiver it is as good as newly allocated; it is empty):
